@@ -112,8 +112,12 @@ func checkC08(c *Ctx, r *Report) {
 		"R3 every implementation of Responder.SetHeaders appends per value (Add) after at most one Del per field — a per-value Set would keep only the last value; siblings agree",
 		"R4 the outgoing URL receives Path and RawQuery of the incoming one; package proxy never assigns Request.Method/Body/Header/Host and sets request headers only with the two stored validators",
 		"R5 relayed status is resp.StatusCode, relayed body is the origin body wrapped only by readers whose Read returns the inner (n, err) unchanged; HEAD gets http.NoBody; headers copied are the origin's / the stored ones (which are resp.Header)",
+		"R6 the upstream http.Client does not follow redirects (CheckRedirect returns ErrUseLastResponse), its transport does not add Accept-Encoding / transparently gunzip (DisableCompression) and no default User-Agent is added for a client that sent none",
+		"R7 the plain responder never lets net/http sniff a Content-Type the origin did not send (the header key is pinned when absent)",
+		"R8 Accept-Ranges is added to a relayed response only on the branch where the origin's own header is absent",
+		"R9 the Connection tokens of the origin response must still be visible when hop-by-hop fields are removed (one known finding, listed under known_findings: net/http's transport has already deleted a Connection field containing close)",
 	}
-	r.NotDec = []string{"byte equality of bodies and header values (net/http canonicalisation and framing trusted)", "chunked / large-body behaviour", "RawPath (encoded slashes) — URL.Path is decoded by net/http before the proxy sees it"}
+	r.NotDec = []string{"byte equality of bodies and header values (net/http canonicalisation and framing trusted)", "chunked / large-body behaviour as bytes on the wire", "header order and letter case on the wire (net/http canonicalises)"}
 	r.Exhaust = true
 	li := BuildLocks(c)
 
